@@ -19,7 +19,7 @@ func init() {
 	Register(&Rule{
 		ID:    "R-REC",
 		Doc:   "type-resolved call graph (VTA) restricted to steady-state code: every cycle that follows input nesting or value indirection contains a function with a depth guard (increment of a counter in the by-value state or a parameter, compared with a limit); the pointer-cycle guard of json's encodePointer is keyed by the loaded pointee and its state is passed on; re-entry through Append resets that state",
-		Props: []string{"C06", "C07", "C08", "C02", "C05", "C14"},
+		Props: []string{"C06", "C07", "C08", "C02", "C05", "C14", "C01"},
 		Min:   map[string]int{"C06": 20, "C07": 1, "C08": 1, "C02": 8, "C05": 3},
 		Run:   runRec,
 	})
@@ -675,6 +675,61 @@ func runRec(c *core.Ctx) []core.Obligation {
 		} else {
 			b.addP([]string{"C06"}, core.Discharged, key, c.FuncPos(fn), "ptrSeen is keyed by the reference loaded from the value")
 		}
+		// every entry added to the set is removed when the frame returns: the set is the path from
+		// the root to the current value, and a map shared by all the by-value encoder copies below
+		// the frame that allocated it — an entry left behind makes the second reference to the same
+		// pointer (siblings, a DAG) look like a cycle
+		{
+			unreleased := ""
+			nUpd := 0
+			for _, blk := range fn.Blocks {
+				for i, in := range blk.Instrs {
+					mu, ok := in.(*ssa.MapUpdate)
+					if !ok {
+						continue
+					}
+					if f, ok := fieldOfLoad(mu.Map); !ok || !strings.HasSuffix(f, "encoder.ptrSeen") {
+						continue
+					}
+					nUpd++
+					released := false
+					for _, blk2 := range fn.Blocks {
+						for j, in2 := range blk2.Instrs {
+							df, ok := in2.(*ssa.Defer)
+							if !ok {
+								continue
+							}
+							bi, isB := df.Call.Value.(*ssa.Builtin)
+							if !isB || bi.Name() != "delete" || len(df.Call.Args) != 2 {
+								continue
+							}
+							if f, ok := fieldOfLoad(df.Call.Args[0]); !ok || !strings.HasSuffix(f, "encoder.ptrSeen") {
+								continue
+							}
+							if !sameKeyValue(df.Call.Args[1], mu.Key) {
+								continue
+							}
+							if (blk2 == blk && j > i) || (blk2 != blk && blk.Dominates(blk2)) {
+								// and nothing recursive in between: the defer is registered before
+								// the nested value is encoded
+								released = true
+							}
+						}
+					}
+					if !released {
+						unreleased = c.InstrPos(mu)
+					}
+				}
+			}
+			if nUpd > 0 {
+				rk := "cycle-guard:released:" + shortName(fn)
+				if unreleased != "" {
+					b.addP([]string{"C01", "C06"}, core.Violation, rk, unreleased, fmt.Sprintf("%s records the reference in ptrSeen without a deferred delete of the same key: the map is shared by every encoder copy below the frame that allocated it, so the entry outlives the value and the second reference to the same pointer — two fields pointing to one node, no cycle — is reported as a cycle once the nesting is deep enough for the detector to run; encoding/json encodes it", shortName(fn)))
+				} else {
+					b.addP([]string{"C01", "C06"}, core.Discharged, rk, c.FuncPos(fn), "every ptrSeen entry is removed by a deferred delete of the same key")
+				}
+			}
+		}
 		// the guard comes before every recursive step of the function: a fast path (the unsorted
 		// map encoding) that recurses before the counter is touched is outside the detector
 		var incBlk *ssa.BasicBlock
@@ -930,6 +985,60 @@ func runMemoKey(c *core.Ctx) []core.Obligation {
 				b.addP([]string{"C03", "C12"}, core.Discharged, wkey, "-", fmt.Sprintf("%d codec(s) published before a recursive compilation, each with its wire type already set", sites))
 			}
 		}
+		// what a compiler function returns from the memo is determined by the key alone: a function
+		// whose result also depends on another parameter (the field a repeated codec is compiled
+		// for: its number and wire type are baked into the codec) must make that parameter part of
+		// the key or not answer from the memo
+		{
+			kkey := key + ":key-determines-result"
+			bad, sites := "", 0
+			for _, fn := range nodes {
+				mp := memoParam(fn)
+				for _, blk := range fn.Blocks {
+					for _, ins := range blk.Instrs {
+						lk, ok := ins.(*ssa.Lookup)
+						if !ok || lk.X != ssa.Value(mp) {
+							continue
+						}
+						returned := false
+						for _, r := range returnsOf(fn) {
+							for _, res := range r.Results {
+								if dependsOn(res, func(x ssa.Value) bool { return x == ssa.Value(lk) }) {
+									returned = true
+								}
+							}
+						}
+						if !returned {
+							continue
+						}
+						sites++
+						for _, p := range fn.Params {
+							if p == mp || p.Referrers() == nil || len(*p.Referrers()) == 0 {
+								continue
+							}
+							if fn.Signature.Recv() != nil && p == fn.Params[0] {
+								continue
+							}
+							if !dependsOnThroughLocals(lk.Index, p, fn) {
+								bad = fmt.Sprintf("%s (%s answers from the memo whatever its parameter %s)", c.InstrPos(lk), shortName(fn), p.Name())
+							}
+						}
+					}
+				}
+			}
+			kprops := spec.props
+			if spec.pkg == "proto" {
+				kprops = []string{"C03", "C12"}
+			}
+			switch {
+			case bad != "":
+				b.addP(kprops, core.Violation, kkey, bad, "a type-compiler function returns the memoised codec of the type although what it compiles also depends on another parameter: "+bad+" — two repeated fields of the same Go type ([]string twice) share the codec of the first, with its field number and wire type baked in, so the second is written under the first one's number")
+			case sites == 0:
+				b.addP(kprops, core.Info, kkey, "-", "no compiler function returns a memo lookup")
+			default:
+				b.addP(kprops, core.Discharged, kkey, "-", fmt.Sprintf("%d memo lookup(s) returned, each keyed by every parameter the function uses", sites))
+			}
+		}
 		// the memo is threaded: a compiler function hands its own memo to the compiler functions
 		// it calls. A fresh map for an inner compilation forgets the types in progress, and a type
 		// that refers to itself through that call (a map value, a synthetic entry struct) is
@@ -1048,4 +1157,20 @@ func runMemoKey(c *core.Ctx) []core.Obligation {
 		}
 	}
 	return b.out
+}
+
+// sameKeyValue: the two values are the same SSA value or loads of the same local cell (a composite
+// literal key spilled to a local is loaded once per use).
+func sameKeyValue(a, b ssa.Value) bool {
+	if a == b {
+		return true
+	}
+	la, ok1 := a.(*ssa.UnOp)
+	lb, ok2 := b.(*ssa.UnOp)
+	if ok1 && ok2 && la.Op == token.MUL && lb.Op == token.MUL && la.X == lb.X {
+		if _, isAlloc := la.X.(*ssa.Alloc); isAlloc {
+			return true
+		}
+	}
+	return false
 }
